@@ -173,4 +173,62 @@ theorem switchScaffold_idem (st : ParseState) (name : Str) :
   · simp [h]
   · simp [h]
 
+
+theorem addRow_ok {st : ParseState} {r : Row} {st' : ParseState} (h : st.addRow r = .ok st') :
+    st.haveScaffold = true ∧ ∃ pre sc, st.scaffolds = pre ++ [sc] ∧
+      st' = { st with scaffolds := pre ++ [{ sc with rows := sc.rows ++ [r] }] } := by
+  unfold ParseState.addRow at h
+  cases hh : st.haveScaffold with
+  | false => simp [hh] at h
+  | true =>
+    simp only [hh, not_true_eq_false, if_false] at h
+    cases hrev : st.scaffolds.reverse with
+    | nil => rw [hrev] at h; cases h
+    | cons s rest =>
+      rw [hrev] at h
+      simp only [Except.ok.injEq] at h
+      refine ⟨rfl, rest.reverse, s, ?_, ?_⟩
+      · have := congrArg List.reverse hrev; simpa using this
+      · rw [← h]; simp
+
+theorem addRow_append (st : ParseState) (r : Row) (pre : List Scaffold) (sc : Scaffold)
+    (hh : st.haveScaffold = true) (hs : st.scaffolds = pre ++ [sc]) :
+    st.addRow r = .ok { st with scaffolds := pre ++ [{ sc with rows := sc.rows ++ [r] }] } := by
+  unfold ParseState.addRow
+  simp [hh, hs]
+
+/-- number of rows read so far -/
+def totalRows (st : ParseState) : Nat := (st.scaffolds.map (fun s => s.rows.length)).sum
+
+/-- exactly one row was added: either appended to the current (last) scaffold, all earlier scaffolds and rows
+    unchanged, or put as the only row into a newly opened scaffold. -/
+def OneRowAdded (st st' : ParseState) : Prop :=
+  ∃ r, (∃ pre sc, st.scaffolds = pre ++ [sc] ∧ st'.scaffolds = pre ++ [{ sc with rows := sc.rows ++ [r] }]) ∨
+       (∃ name, st'.scaffolds = st.scaffolds ++ [{ name := name, rows := [r] }])
+
+theorem OneRowAdded.totalRows {st st' : ParseState} (h : OneRowAdded st st') :
+    totalRows st' = totalRows st + 1 := by
+  obtain ⟨r, ⟨pre, sc, h1, h2⟩ | ⟨name, h2⟩⟩ := h
+  · unfold C05.totalRows; rw [h1, h2]; simp; omega
+  · unfold C05.totalRows; rw [h2]; simp
+
+/-- a row added after `switchScaffold` is one row added to the original state -/
+theorem oneRow_of_switch_addRow (st : ParseState) (name : Str) (r : Row) (st' : ParseState)
+    (h : (st.switchScaffold name).addRow r = .ok st') :
+    OneRowAdded st st' ∧ st'.header = st.header ∧ st'.nextOid = st.nextOid := by
+  obtain ⟨_, pre, sc, h1, h2⟩ := addRow_ok h
+  unfold ParseState.switchScaffold at h1 h2
+  by_cases hn : name ≠ st.currentName
+  · rw [if_pos hn] at h1 h2
+    simp only at h1
+    have := List.append_inj' h1 rfl
+    obtain ⟨e1, e2⟩ := this
+    simp only [List.cons.injEq, and_true] at e2
+    subst h2
+    refine ⟨⟨r, Or.inr ⟨name, ?_⟩⟩, rfl, rfl⟩
+    simp only [← e1, ← e2]; rfl
+  · rw [if_neg hn] at h1 h2
+    subst h2
+    exact ⟨⟨r, Or.inl ⟨pre, sc, h1, rfl⟩⟩, rfl, rfl⟩
+
 end AgpTpf.C05
